@@ -55,6 +55,7 @@ pub fn gen_case(ch: &mut Choices, tier: Tier) -> Case {
         strata: [5, 3, 1, 1],
         precedence: true,
         avoid_insert: false,
+        pad_tokens: true,
     };
     let mut ag = gen_grammar(ch, &o);
     decorate(ch, &mut ag, kind);
